@@ -37,3 +37,11 @@ Theorem C02_tiling_1d : forall lo2 hi2 xs,
   zsum (lengths lo2 (cuts lo2 hi2 xs)) = hi2 - lo2.
 Proof. exact tiling_1d. Qed.
 Print Assumptions C02_tiling_1d.
+
+(* in 1D consecutive cells share their end point: the cells tile [lo, hi] without gap or overlap (with C02_tiling_1d) *)
+From MV Require Import Proofs.OneD.
+Theorem C02_neighbours_share_endpoint_1d : forall lo hi a b sites, a < b ->
+  (forall s, In s sites -> s < a \/ b < s \/ s = a \/ s = b) -> In a sites -> In b sites -> lo <= a -> b <= hi ->
+  right2 hi a sites = a + b /\ left2 lo b sites = a + b.
+Proof. exact neighbours_share_endpoint_1d. Qed.
+Print Assumptions C02_neighbours_share_endpoint_1d.
